@@ -49,6 +49,7 @@ var reservedAtoms = []string{
 	"&code=evil", "&state=evil", "&error=evil", "#code=evil", "?code=evil", ";code=evil",
 	"</form>", "\"><script>alert(1)</script>", "'><img src=x onerror=alert(1)>", "\" onfocus=\"alert(1)", "' autofocus onfocus='alert(1)",
 	"--><!--", "<!--", "]]>", "</input>", "<form action=\"https://evil.example/\">", "<input name=\"code\" value=\"evil\">",
+	"%s", "%d", "%v", "%!", "%%", "%!f(MISSING)", "%!(NOVERB)", "%[1]s", "%+v", "%q", "%x", "%c", "% x", "100% full", "50%off", "%\"", "%'",
 	"javascript:alert(1)", "{{.}}", "{{ .RedirectURI }}", "ZgotmplZ", "#ZgotmplZ", "==", "a+b/c==",
 }
 
